@@ -341,6 +341,15 @@ func ru3ReportSingleWriter(w *World) {
 					case *ast.UnaryExpr:
 						if pp.Op == token.AND {
 							kind = "address-of"
+							// rep := &node.report where rep is a local that is only read through
+							// (rep.F in value position): a read
+							if as, ok := parents[pp].(*ast.AssignStmt); ok && len(as.Lhs) == 1 && len(as.Rhs) == 1 && as.Rhs[0] == ast.Expr(pp) {
+								if id, ok := as.Lhs[0].(*ast.Ident); ok && id.Name != "_" {
+									if obj := info.ObjectOf(id); obj != nil && localOnlyFieldReads(info, parents, b.Body, obj, id) {
+										kind = "read"
+									}
+								}
+							}
 						}
 					case *ast.AssignStmt:
 						for _, l := range pp.Lhs {
@@ -515,9 +524,15 @@ func ru5CollectionReadOnly(w *World) {
 			}
 			has := false
 			ast.Inspect(fs.Body, func(y ast.Node) bool {
-				if sel, ok := y.(*ast.SelectorExpr); ok && sel.Sel.Name == "Diagnostics" {
-					if in, ok := ast.Unparen(sel.X).(*ast.SelectorExpr); ok && in.Sel.Name == "report" {
-						has = true
+				if in, ok := y.(*ast.SelectorExpr); ok && in.Sel.Name == "report" {
+					if v := selField(info, in); v != nil {
+						t := info.TypeOf(in.X)
+						if pt, ok := t.(*types.Pointer); ok {
+							t = pt.Elem()
+						}
+						if n, ok := t.(*types.Named); ok && n.Origin() == taskT.Origin() {
+							has = true
+						}
 					}
 				}
 				return true
@@ -581,4 +596,48 @@ func ru5CollectionReadOnly(w *World) {
 	if bad == 0 {
 		w.ok("collection-read-only", loop.Pos(), "the collection loop only reads shared task state (deps.Range, report); its visited set is local to the call")
 	}
+}
+
+// localOnlyFieldReads reports whether every use of the local obj in body (other than its defining
+// identifier def) is the X of a field selector that is read: not assigned to, not incremented, not
+// address-taken, not the receiver of a method call, not sliced.
+func localOnlyFieldReads(info *types.Info, parents map[ast.Node]ast.Node, body ast.Node, obj types.Object, def *ast.Ident) bool {
+	okAll := true
+	ast.Inspect(body, func(x ast.Node) bool {
+		id, ok := x.(*ast.Ident)
+		if !ok || id == def || info.ObjectOf(id) != obj {
+			return true
+		}
+		sel, ok := parents[id].(*ast.SelectorExpr)
+		if !ok || sel.X != ast.Expr(id) || selField(info, sel) == nil {
+			okAll = false
+			return true
+		}
+		switch pp := parents[sel].(type) {
+		case *ast.AssignStmt:
+			for _, l := range pp.Lhs {
+				if l == ast.Expr(sel) {
+					okAll = false
+				}
+			}
+		case *ast.IncDecStmt:
+			okAll = false
+		case *ast.UnaryExpr:
+			if pp.Op == token.AND {
+				okAll = false
+			}
+		case *ast.SelectorExpr:
+			okAll = false // method call or deeper path: not followed
+		case *ast.SliceExpr, *ast.IndexExpr:
+			if gp, ok := parents[pp].(*ast.AssignStmt); ok {
+				for _, l := range gp.Lhs {
+					if l == pp.(ast.Expr) {
+						okAll = false
+					}
+				}
+			}
+		}
+		return true
+	})
+	return okAll
 }
